@@ -60,6 +60,27 @@ chk("C17", "exploration",
     "roles; metamorphic twin run without the queries must produce identical build traces and bytes.", H_NOTE,
     "property-based testing: bounds oracle + metamorphic with/without-queries differential", "DESIGN.md §4 C17", "H")
 
+P_NOTE = ("Trusted: the independent reference implementations in inproc/src/reference.rs and rv/project.py "
+          "(do_candidates), the kernel's path resolution, proptest, plus the H-engine trusted base for the end-to-end "
+          "half. If an edit to /repo breaks the public API used by inproc/, the in-process half is reported as disabled "
+          "in the evidence and only the end-to-end half decides.")
+chk("C13", "exploration",
+    "In-process proptest of possible_do_files against a reference enumeration (20k quick / 2M thorough paths) plus "
+    "generated end-to-end histories checking redo-whichdo, the chosen script, $1/$2/$3/cwd and rebuild after adding / "
+    "removing candidates.", P_NOTE,
+    "property-based testing: proptest vs reference enumeration + Hypothesis end-to-end histories", "DESIGN.md §4 C13", "P+H")
+chk("C15", "exploration",
+    "normpath is checked on every string over {/,.,a,b} up to length 9 (11 thorough) and {/,.,a} up to 11 (14) against "
+    "an independent cleanname, idempotence, shape invariants and the kernel; proptest for long/unicode strings; relpath "
+    "re-join and spelling-agreement in a tree with symlinked directories; end-to-end: 2-4 spellings of one target on one "
+    "command line at -j1..4 must give one build and one canonical database row.", P_NOTE,
+    "exhaustive enumeration + proptest vs reference/kernel oracle + Hypothesis end-to-end cases", "DESIGN.md §4 C15", "P+H")
+chk("C18", "exploration",
+    "In-process round trip through the real formatter and parser for generated (kind, pid, text); end-to-end: generated "
+    "graphs whose scripts write numbered stderr lines (partial, long, odd payloads) built at -j1..4, live output and "
+    "redo-log replay parsed and compared per target.", P_NOTE,
+    "property-based testing: proptest round trip + Hypothesis end-to-end per-target sequence invariant", "DESIGN.md §4 C18", "P+S-lite")
+
 manifest = {
     "version": 1,
     "setup_cmd": "./check --setup",
@@ -71,8 +92,10 @@ manifest = {
         "add_only": True,
     },
     "engines": [
-        {"name": "H", "path": "rv/hist.py", "serves_properties": ["C01", "C02", "C03", "C05", "C11", "C14", "C17"],
+        {"name": "H", "path": "rv/hist.py", "serves_properties": ["C01", "C02", "C03", "C05", "C11", "C13", "C14", "C15", "C17"],
          "kind_free_text": "Hypothesis-generated serial histories run against the real redo binary and the reference model rv/model.py"},
+        {"name": "P", "path": "inproc/", "serves_properties": ["C13", "C15", "C18"],
+         "kind_free_text": "Rust crate linking /repo's library: proptest TestRunner (seeded), exhaustive enumeration, independent reference implementations"},
     ],
     "checks": [CHECKS[p["id"]] for p in props if p["id"] in CHECKS],
     "notes": "All checks rebuild /repo's working tree into /verif/target/sut first. Exit 2 = inconclusive (harness/watchdog), never a violation.",
